@@ -15,7 +15,7 @@ One execution = World.run(program, plan):
     commit call k for real and fails afterwards (lost acknowledgement); fault is one of FAULT_KINDS
     or 'crash' (os._exit(77), only meaningful inside crash_run's forked child);
   * with observe=True the committed rows are read through an independent raw sqlite3 connection
-    before every driver call: obs[k] is exactly what abandoning the connection at call k (a crash
+    before every driver call (except right after a cursor() call, which executes nothing): obs[k] is exactly what abandoning the connection at call k (a crash
     without the journal replay) leaves behind - the quick tier's crash plan;
   * the result (Exec) carries the driver-call log, which faults fired, the propagated exception, the
     progress events, the observed committed states and the final committed rows (fresh connection).
@@ -80,7 +80,7 @@ class Monitor(object):
         self.n = k + 1
         self.calls.append((kind, sql))
         if self.progress_fd is not None and kind == 'commit': os.write(self.progress_fd, b'c')
-        if self.observe: self.look(k)
+        if self.observe and not (k and self.calls[k - 1][0] == 'cursor'): self.look(k)   # cursor() cannot change committed rows
         f = self.plan.get(k)
         if f is not None: self.fire(k, kind, f)
     def after_call(self, kind, con):
